@@ -26,9 +26,9 @@ type heldItem struct {
 }
 
 type model struct {
-	pend   []pending
-	park   []parked
-	held   []heldItem
+	pend []pending
+	park []parked
+	held []heldItem
 }
 
 func (m *model) pendIdx(k string) int {
